@@ -84,7 +84,18 @@ def c05(chk, tier):
             "U1", "R10,R12,U2,D12,D10,S10,D10", "R12,R10,R12,U1,D12,U3,D12,S12,D12"]
     if tier == "thorough":
         alphabet = ["R10", "R12", "U1", "U2", "S10", "D10", "D12", "H10", "Q10"]
-        hist += [",".join(p) for n in (2, 3, 4) for p in itertools.product(alphabet, repeat=n)][:1500]
+        def sane(p):
+            # a delivery of a signal the library never took over would just kill the probe
+            taken = set()
+            for tok in p:
+                if tok[0] == "R":
+                    taken.add(tok[1:])
+                elif tok[0] == "D" and tok[1:] not in taken:
+                    return False
+                elif tok[0] in "HG" and tok[1:] in taken:
+                    return False     # other code replacing the library's handler is outside the contract
+            return True
+        hist += [",".join(p) for n in (2, 3, 4) for p in itertools.product(alphabet, repeat=n) if sane(p)][:1500]
     out = os.path.join(p_probes.WORK, "probe_C05.ndjson")
     args = ["--histories", ";".join(hist)]
     recs = p_probes.run_probe("fresh", args, out)
